@@ -28,6 +28,7 @@ func constsObs() Val {
 		VN(carv2.NewHeader(0).DataOffset), VN(carv2.NewHeader(7).IndexOffset),
 		VB(hb.Bytes()), VB(h1.Bytes()),
 		VN(uint64(varint.UvarintSize(127))), VN(uint64(varint.UvarintSize(128))), VN(uint64(varint.UvarintSize(16384))),
+		VN(uint64(index.NewInsertionIndex().Codec())),
 	}
 }
 
